@@ -3103,3 +3103,16 @@ mod test_set {
         }
     }
 }
+
+#[cfg(feature = "verif-hooks")]
+impl<T, S, A: Allocator> HashSet<T, S, A> {
+    /// Verification hook: read-only dump of the underlying raw table.
+    pub fn verif_dump(&self) -> crate::raw::verif::TableDump {
+        self.map.verif_dump()
+    }
+
+    /// Verification hook: the element stored in bucket `index`, if that bucket is full.
+    pub fn verif_bucket(&self, index: usize) -> Option<&T> {
+        self.map.verif_bucket(index).map(|(k, ())| k)
+    }
+}
